@@ -16,7 +16,7 @@ pub mod rec;
 pub mod shm;
 
 pub use guard::{guard, PanicInfo};
-pub use rec::{choose, choose_dev, count, count_n, describe, n_violations, nontrivial, outcome, pick, sampling, violation, violation_d};
+pub use rec::{choose, choose_dev, count, count_n, describe, n_violations, nontrivial, outcome, pick, sampling, violation, violation_d, violation_nondet};
 pub use serde_json::{json, Value};
 
 use serde::{Deserialize, Serialize};
